@@ -120,25 +120,9 @@ var families = []family{
 			return b.String()
 		}, quick: []int{1, 2, 10, 40}, thorough: []int{1, 2, 10, 40, 160}},
 	{name: "cost-double-spread-chain", about: "F-12c: every fragment spreads the next one twice; the cost walk re-expands a fragment at every spread",
-		gen: func(n int) string {
-			var b strings.Builder
-			b.WriteString("{ ...F1 }\n")
-			for i := 1; i < n; i++ {
-				fmt.Fprintf(&b, "fragment F%d on Query { ...F%d ...F%d }\n", i, i+1, i+1)
-			}
-			fmt.Fprintf(&b, "fragment F%d on Query { x }\n", n)
-			return b.String()
-		}, quick: []int{4, 8, 12, 16, 40}, thorough: []int{4, 8, 12, 16, 18, 40, 80}, cost: true},
+		gen: doubleSpreadChain, quick: []int{0, 1, 2, 3, 4, 8, 12, 16, 40}, thorough: []int{0, 1, 2, 3, 4, 8, 12, 16, 18, 40, 80}, cost: true},
 	{name: "nocost-double-spread-chain", about: "the same documents without the cost rule (isolates the cost walk)",
-		gen: func(n int) string {
-			var b strings.Builder
-			b.WriteString("{ ...F1 }\n")
-			for i := 1; i < n; i++ {
-				fmt.Fprintf(&b, "fragment F%d on Query { ...F%d ...F%d }\n", i, i+1, i+1)
-			}
-			fmt.Fprintf(&b, "fragment F%d on Query { x }\n", n)
-			return b.String()
-		}, quick: []int{4, 8, 16, 40, 80}, thorough: []int{4, 8, 16, 40, 80, 160, 320}},
+		gen: doubleSpreadChain, quick: []int{4, 8, 16, 40, 80}, thorough: []int{4, 8, 16, 40, 80, 160, 320}},
 	{name: "cost-single-spread-chain", about: "linear fragment chain under the cost rule, list multipliers at every level",
 		gen: func(n int) string {
 			var b strings.Builder
@@ -207,6 +191,18 @@ var families = []family{
 		gen: func(n int) string {
 			return "query($v: " + strings.Repeat("[", n) + "Int" + strings.Repeat("]", n) + ") { f(deep: $v) }"
 		}, quick: []int{10, 100, 900}, thorough: []int{10, 100, 900}},
+}
+
+// doubleSpreadChain is the family of the Lean theorem C12.cost_walk_lower (`chainDoc fname n`):
+// { ...F0 } fragment F0 on Query { ...F1 ...F1 } … fragment F(n-1) on Query { ...Fn ...Fn } fragment Fn on Query { x }
+func doubleSpreadChain(n int) string {
+	var b strings.Builder
+	b.WriteString("{ ...F0 }\n")
+	for i := 0; i < n; i++ {
+		fmt.Fprintf(&b, "fragment F%d on Query { ...F%d ...F%d }\n", i, i+1, i+1)
+	}
+	fmt.Fprintf(&b, "fragment F%d on Query { x }\n", n)
+	return b.String()
 }
 
 func familyByName(name string) *family {
